@@ -70,6 +70,40 @@ func calmFamily(prop string) func(ctx *Ctx) *Result {
 			wit := func(clause, msg string) {
 				res.Violations = append(res.Violations, Witness{Prop: prop, Clause: clause, Msg: msg, Family: "calm", Case: i, Seed: ctx.Seed, Tier: ctx.Tier, Trace: tail(r.Trace, 400)})
 			}
+			// epilogue (a third of the cases): the very last status write before the system goes quiet fails
+			// (plainly, or after a conflict that let the caches catch up); nothing else changes afterwards.
+			// The stored status must still end up right: a failed write may not survive in some cache only.
+			if cr.Converged && i%3 == 0 && len(r.LiveSets()) > 0 {
+				set := r.LiveSets()[0].Name
+				var victim string
+				for _, p := range world.PodsOf(w.Srv.Snap(), world.NS) {
+					if c := world.ControllerOf(p); c != nil && c.UID == r.LiveSets()[0].UID && world.IsHealthy(p) {
+						victim = p.Name
+					}
+				}
+				if victim != "" {
+					w.Kubelet(victim, "unready")
+					w.DeliverAll()
+					r.Reconcile(set)
+					w.DeliverAll()
+					w.Kubelet(victim, "ready")
+					w.Deliver(simapi.Pods, -1)
+					id := "update|statefulsets|status|" + set
+					if i%2 == 0 {
+						w.Srv.AddFault(&simapi.Fault{Identity: id, Occ: 0, Kind: "500", Mode: "before"})
+					} else {
+						w.Srv.AddFault(&simapi.Fault{Identity: id, Occ: 0, Kind: "conflict", Mode: "before"})
+						w.Srv.AddFault(&simapi.Fault{Identity: id, Occ: 1, Kind: "500", Mode: "before"})
+						w.CatchUp = true
+					}
+					r.Trace = append(r.Trace, "epilogue: the last status write fails")
+					r.Reconcile(set)
+					w.CatchUp = false
+					w.Srv.ClearFaults()
+					res.Stats["epilogues_failed_last_status_write"]++
+					cr = r.Calm(3)
+				}
+			}
 			if prop == "C02" {
 				if !cr.Converged {
 					for set, why := range cr.NotConv {
@@ -112,5 +146,5 @@ func init() {
 		Rule:   "seeded scenarios: hostile initial population + 0..80 hostile steps (faults, lag, restarts, user edits, strays), then the calm phase (user stops, faults stop, caches catch up, kubelet makes every remaining pod Running+Ready, terminating pods vanish); bounded progress: converged within 10*(pods+replicas)+30 rounds, then 5 more rounds must issue no write; non-trivial = the calm phase needed at least one round; distinct by trace tail",
 		Assume: append([]string{"'eventually' is restated as bounded progress in logical rounds (no finite run decides unbounded liveness)", "premise: pods squatting a name of the set without being claimable are removed by their owners; a Failed/Succeeded pod outside the desired set of an OrderedReady set is restarted; a raised pause flag is lowered; sets being deleted are exempt"}, simAssumptions...),
 		Cases:  scenarioCases(3200, 64000), Run: calmFamily("C02"),
-		Race: runLive("C02"), RaceCases: scenarioCases(16, 160), Floors: []string{"converged", "quiet_fixed_points", "scenarios_needing_calm_work"}})
+		Race: runLive("C02"), RaceCases: scenarioCases(16, 160), Floors: []string{"converged", "quiet_fixed_points", "scenarios_needing_calm_work", "epilogues_failed_last_status_write"}})
 }
